@@ -106,3 +106,5 @@ axiom("forall(lambda f: FLATS(MAPS(f, OFSEQ(EMPTY()))) == EMPTYS(), f='U')")
 axiom("forall(lambda a, b: FAILS(CATS(a, b)) == (FAILS(a) or FAILS(b)), a='STREAM', b='STREAM')")
 axiom("not FAILS(EMPTYS())")
 axiom("forall(lambda a, b: FIN(CATS(a, b)) == (FIN(a) and FIN(b)), a='STREAM', b='STREAM')")
+axiom("forall(lambda s, k: implies(k >= 0 and (not FIN(s) or k < LEN(SEQOF(s))), CAT(TAKES(s, k), UNIT(NTHS(s, k))) == TAKES(s, k + 1)), s='STREAM')")
+axiom("OFSEQ(EMPTY()) == EMPTYS()")
